@@ -52,8 +52,9 @@ edit). Failing cases of these runs go to a throw-away directory (`VERIF_NEW_REPL
 `seeded/RESULTS.md` is the full table, `seeded/last_run.json` the raw results.
 
 Outcome: all %d are caught by the quick tier — %d by the property they were aimed at, %d (%s) only by the property
-that owns the broken clause (a clone's parameter values belong to C12; `integral(grid='control')` scaled
-identically in the free- and fixed-time NLP is invisible to C11's differential by construction and belongs to C05).
+that owns the broken clause:
+
+BYDESIGN_LIST
 %d were caught by the checks as built; %d were missed by the first version of the aimed check and led to the
 strengthenings listed in `seeded/RESULTS.md` (%d of those were caught from the start by a neighbouring check).
 First misses per round: %s. The share did not fall quickly, which is the honest measure of what remains: another
@@ -80,5 +81,6 @@ author would again find dimensions the generators hold fixed. The misses fell in
 | seed | change (abridged) | caught by (quick tier) | history |
 |---|---|---|---|
 """ % (total, len(per_round), total, total - len(bydesign), len(bydesign), ", ".join(bydesign), built, missed, len(neigh), rounds) + "\n".join(rows) + "\n"
+new = new.replace("BYDESIGN_LIST\n", "".join("* %s — %s\n" % (k, notes.get(k, {}).get("note", "")) for k in bydesign) + "\n")
 open(p, "w").write(s[:i] + new)
 print(total, "seeds; missed first:", missed, "as built:", built, "by design elsewhere:", bydesign, "per round:", per_round)
